@@ -437,6 +437,7 @@ def check(chk):
 
     # both pool classes take part in the stream accounting: an orphaned stream is released by its late answer, not by the timeout
     chk.rule('C09.pools', 'return_connection(stream_was_orphaned=True) does not decrement in_flight in either pool class (shared with C12)')
+    chk.borrow('C19', {'C19.resend': 'C09.pools'}, 'the connection borrowed for the re-PREPARE is not handed back on some path: its in_flight count stays up after every request was answered')
     chk.borrow('C12', {'C12.noorphan_dec': 'C09.pools', 'C12.paired': 'C09.pools'}, 'in_flight undercounts and ids beyond the protocol maximum are handed out')
 
     # removing the pending entry and declaring the stream orphaned is one decision: a response processed between the two steps
